@@ -284,6 +284,13 @@ partial def loop (h : IO.FS.Stream) (d : D) (c : Case) : IO D := do
     let mut d := { d with hist := hist }
     if let some X := built then
       d := { d with nodes := d.nodes + X.core.nodes.size }
+      -- which expansion policies the padding nodes of width-less variables used (conditional width increment, narrower operands)
+      for n in X.core.nodes do
+        match n with
+        | .pad _ _ .zero => d := { d with hist := d.hist.bump "pad:zero" }
+        | .pad _ _ .one => d := { d with hist := d.hist.bump "pad:one" }
+        | .pad _ _ .sign => d := { d with hist := d.hist.bump "pad:sign" }
+        | _ => pure ()
     if prog.isNone then
       IO.println s!"DIFF case={c.id} what=unparsed-program"
       d := { d with diffs := d.diffs + 1 }
